@@ -48,3 +48,12 @@ impl Clone for Heap {
         Self::new()
     }
 }
+
+// verification hook (compiled only by Kani): lets a harness cross the collection threshold
+// without allocating a megabyte of objects first.
+#[cfg(kani)]
+impl Heap {
+    pub fn verif_set_gc_threshold(&mut self, next_gc: usize) {
+        self.next_gc = next_gc;
+    }
+}
